@@ -269,7 +269,7 @@ def classify(v):
     opi = v.get('op_index', -1)
     ops_ = script.get('ops', [])
     last_op = ops_[opi]['op'] if 0 <= opi < len(ops_) else ''
-    drop_like = last_op in ('drop', 'drop_extra', 'upgrade', 'dec_strong', 'drop_if', 'drop_any', 'catch', 'drop_value', 'wdrop', '')
+    drop_like = last_op in ('drop', 'drop_via_raw', 'drop_extra', 'upgrade', 'dec_strong', 'drop_if', 'drop_any', 'catch', 'drop_value', 'wdrop', '')
     if clause in ('orphan-not-collected', 'table-exact', 'zero-count-not-destroyed', 'not-destroyed', 'leak') and same_subject and drop_like:
         # the object (group) concerned has recorded an adoption of itself through the very same handle:
         # the Loopback record is never counted as an owned reference
